@@ -6,6 +6,7 @@ package main
 import (
 	"fmt"
 	"os"
+	"runtime/pprof"
 
 	"verifharness/vh"
 )
@@ -16,6 +17,12 @@ func main() {
 		os.Exit(2)
 	}
 	defer vh.Flush()
+	if pf := os.Getenv("VERIF_PROF"); pf != "" {
+		if fh, err := os.Create(pf); err == nil {
+			pprof.StartCPUProfile(fh)
+			defer pprof.StopCPUProfile()
+		}
+	}
 	switch os.Args[1] {
 	case "frames":
 		framesRun()
